@@ -617,6 +617,12 @@ func c01(c *core.Ctx) {
 		c.EndRule()
 	}
 
+	// ---------------------------------------------------------------- R12
+	if c.Rule("R12", "HTTP: a frame leaves the process when it is written: the frame writer tries to flush after every payload write (a writer that cannot flush is no error), and what the server writes the reply through is the ResponseWriter its handler was given or something that keeps its Flush method — net/http buffers, and an unflushed frame reaches the client only when the handler returns", 4) {
+		c01Flush(c)
+		c.EndRule()
+	}
+
 	// ---------------------------------------------------------------- R8, R9 (shared)
 	// nothing is lost on the way: the in-process header accessor takes at most one frame and never parks over it
 	// (C20/R6), and the HTTP reply reader cannot end "successfully" without the trailer (C02/R1: a lost read error
